@@ -2080,6 +2080,9 @@ func (ls *LState) SetMx(mx int) {
 func (ls *LState) SetContext(ctx context.Context) {
 	ls.mainLoop = mainLoopWithContext
 	ls.ctx = ctx
+	// coroutines created from now on derive their contexts from ctx, not from
+	// the context this state inherited when NewThread created it
+	ls.ctxBase = nil
 }
 
 // Context returns the LState's context. To change the context, use WithContext.
@@ -2092,6 +2095,7 @@ func (ls *LState) RemoveContext() context.Context {
 	oldctx := ls.ctx
 	ls.mainLoop = mainLoop
 	ls.ctx = nil
+	ls.ctxBase = nil
 	return oldctx
 }
 
